@@ -225,7 +225,41 @@ theorem indexNameValue_id {c : IndexCtx} {f : Nat} (hc : Cur ws0 c f) (nv : PTre
         rintro x c' ⟨rfl, h⟩
         exact ⟨rfl, fun name loc hx => (h name loc hx).up
           ((Ast.children_sub (List.mem_of_head? hinner)).desc.trans (Ast.child_sub hsv).desc)⟩
-      · exact PC.pure ⟨rfl, by intro _ _ hl; cases hl⟩
+      · split
+        · dsimp only
+          split
+          · rename_i tok htok
+            obtain ⟨hdtok, htokT⟩ := PTree.firstToken_desc htok
+            have hdnv : Desc nv tok :=
+              ((Ast.children_sub (List.mem_of_head? hinner)).desc.trans (Ast.child_sub hsv).desc).trans hdtok
+            split
+            · exact PC.pure ⟨rfl, by intro _ _ hl; cases hl⟩
+            · rename_i hguard
+              simp only [Bool.or_eq_true, bne_iff_ne, ne_eq, not_or, Decidable.not_not] at hguard
+              split
+              · exact PC.panic
+              · refine PC.bind (R := fun f' c' => c = c' ∧ c.fileTrace.head? = some f') ?_ ?_
+                · unfold currentFileId
+                  refine PC.bind (PC.get (Q := fun s c' => s = c ∧ c' = c) ⟨rfl, rfl⟩) ?_
+                  rintro s c' ⟨rfl, rfl⟩
+                  split
+                  · rename_i f' rest hft
+                    exact PC.pure ⟨rfl, by rw [hft]; rfl⟩
+                  · exact PC.panic
+                · rintro f' c' ⟨rfl, hf'⟩
+                  refine PC.pure ⟨rfl, ?_⟩
+                  intro name loc hl
+                  cases hl
+                  rw [hc.head] at hf'
+                  refine ⟨(Option.some.inj hf').symm, Or.inr ⟨tok, (Ast.stringValue sv).toList, hdnv, htokT, rfl, ?_,
+                    hguard.2, ?_⟩⟩
+                  · simp only; omega
+                  · intro he
+                    apply hguard.1
+                    have : Ast.stringValue sv = "" := String.toList_injective (by simpa using he)
+                    rw [this]; rfl
+          · exact PC.pure ⟨rfl, by intro _ _ hl; cases hl⟩
+        · exact PC.pure ⟨rfl, by intro _ _ hl; cases hl⟩
     · exact PC.pure ⟨rfl, by intro _ _ hl; cases hl⟩
   · exact PC.pure ⟨rfl, by intro _ _ hl; cases hl⟩
 
@@ -925,19 +959,17 @@ theorem indexDef_vis : VSpec ws0 (indexDef r n) n := by
       (∀ (defId : Nat) {c1 : IndexCtx} {vs : List PTree}, At ws0 c c1 f vs → (∀ v ∈ vs, Inside n v) →
         (∀ b, Got n (Ast.is .RecordBody) b → ∀ a ∈ vs, Dj a b) →
         PC (kont defId) c1 (fun _ c' => Vis c c' f [n])) →
-      PC (match Ast.defName n with
-        | some nameValue => do
-          let __x ← indexNameValue nameValue
-          match __x with
-            | some (name, defineLoc) => do
-              let __do_lift ← currentMulticlassId
-              if __do_lift.isSome = true then do
-                  let defId ← addMulticlassDef { name := name, kind := RecordKind.def_, defineLoc := defineLoc }
-                  kont defId
-                else do
-                  let defId ← addRecord { name := name, kind := RecordKind.def_, defineLoc := defineLoc } g
-                  kont defId
-            | x => pure ()
+      ∀ (named : Option (String × FileRange)) (nv : PTree), (∀ name loc, named = some (name, loc) → IdLoc f nv loc) →
+      (∀ name loc, named = some (name, loc) → Got n (Ast.is .Value) nv) →
+      PC (match named with
+        | some (name, defineLoc) => do
+          let __do_lift ← currentMulticlassId
+          if __do_lift.isSome = true then do
+              let defId ← addMulticlassDef { name := name, kind := RecordKind.def_, defineLoc := defineLoc }
+              kont defId
+            else do
+              let defId ← addRecord { name := name, kind := RecordKind.def_, defineLoc := defineLoc } g
+              kont defId
         | none => do
           let name ← nextAnonymousDefName
           let file ← currentFileId
@@ -949,28 +981,22 @@ theorem indexDef_vis : VSpec ws0 (indexDef r n) n := by
               indexRecordBody r body
               scopesPop
             | x => pure () : IxM Unit) c0 (fun _ c' => Vis c c' f [n]) := by
-    intro g kont c0 h0 hk
+    intro g kont c0 h0 hk named nv hx hgot
     split
-    · rename_i nv hnv
-      have gnv := Got.child hnv
-      refine PC.bind (indexNameValue_id h0.cur nv) ?_
-      rintro x c' ⟨hcc, hx⟩
-      subst hcc
+    · rename_i name loc
+      have hloc := hx name loc rfl
+      have gnv := hgot name loc rfl
+      refine PC.silent_bind currentMulticlassId_silent h0 ?_
+      intro mc c1 h1
       split
-      · rename_i name loc
-        have hloc := hx name loc rfl
-        refine PC.silent_bind currentMulticlassId_silent h0 ?_
-        intro mc c1 h1
-        split
-        · refine PC.reg_bind (addMulticlassDef_push _ c1) h1 (gnv.ok hn) hloc (by intro L hL; cases hL; rfl)
-            (by djs hn) ?_
-          intro defId c2 h2
-          exact hk defId h2 (by ins hn) (fun b gb => by djs hn)
-        · refine PC.reg_bind (addRecord_push _ _ c1) h1 (gnv.ok hn) hloc (by intro L hL; cases hL; rfl)
-            (by djs hn) ?_
-          intro defId c2 h2
-          exact hk defId h2 (by ins hn) (fun b gb => by djs hn)
-      · exact PC.pure (h0.exit (by ins hn))
+      · refine PC.reg_bind (addMulticlassDef_push _ c1) h1 (gnv.ok hn) hloc (by intro L hL; cases hL; rfl)
+          (by djs hn) ?_
+        intro defId c2 h2
+        exact hk defId h2 (by ins hn) (fun b gb => by djs hn)
+      · refine PC.reg_bind (addRecord_push _ _ c1) h1 (gnv.ok hn) hloc (by intro L hL; cases hL; rfl)
+          (by djs hn) ?_
+        intro defId c2 h2
+        exact hk defId h2 (by ins hn) (fun b gb => by djs hn)
     · refine PC.silent_bind nextAnonymousDefName_silent h0 ?_
       intro name c1 h1
       refine PC.silent_bind currentFileId_silent h1 ?_
@@ -978,22 +1004,73 @@ theorem indexDef_vis : VSpec ws0 (indexDef r n) n := by
       refine PC.bind (addAnonymousDef_push _ c2) ?_
       intro defId c3 hp
       exact hrest defId (h2.anon hp) (by ins hn) (fun b gb => by djs hn)
+  -- the name value, if there is one, then `halloc`
+  have hname : ∀ (g : Bool) (kont : Nat → IxM Unit) {c0 : IndexCtx}, At ws0 c c0 f [] →
+      (∀ (defId : Nat) {c1 : IndexCtx} {vs : List PTree}, At ws0 c c1 f vs → (∀ v ∈ vs, Inside n v) →
+        (∀ b, Got n (Ast.is .RecordBody) b → ∀ a ∈ vs, Dj a b) →
+        PC (kont defId) c1 (fun _ c' => Vis c c' f [n])) →
+      ∀ (jp : Option (String × FileRange) → IxM Unit),
+      (∀ named nv, (∀ name loc, named = some (name, loc) → IdLoc f nv loc) →
+        (∀ name loc, named = some (name, loc) → Got n (Ast.is .Value) nv) →
+        ∀ {c1 : IndexCtx}, At ws0 c c1 f [] → PC (jp named) c1 (fun _ c' => Vis c c' f [n])) →
+      PC (match Ast.defName n with
+        | some nameValue => do
+          let named ← indexNameValue nameValue
+          jp named
+        | none => do
+          let named ← pure none
+          jp named : IxM Unit) c0 (fun _ c' => Vis c c' f [n]) := by
+    intro g kont c0 h0 _ jp hjp
+    split
+    · rename_i nv hnv
+      have gnv := Got.child hnv
+      refine PC.bind (indexNameValue_id h0.cur nv) ?_
+      rintro x c' ⟨hcc, hx⟩
+      subst hcc
+      exact hjp x nv hx (fun _ _ _ => gnv) h0
+    · refine PC.bind (R := fun x c' => c0 = c' ∧ x = none) (PC.pure (And.intro rfl rfl)) ?_
+      rintro x c' ⟨hcc, hx⟩
+      subst hcc; subst hx
+      exact hjp none n (by intro _ _ hh; cases hh) (by intro _ _ hh; cases hh) h0
   unfold indexDef
   refine PC.silent_bind sameFileDefset_silent h ?_
   intro dsid c0 h0
   cases dsid with
   | none =>
     dsimp only
-    refine halloc _ _ h0 ?_
-    intro defId c1 vs h1 hin hd
-    exact hrest defId h1 hin hd
+    have hk : ∀ (defId : Nat) {c1 : IndexCtx} {vs : List PTree}, At ws0 c c1 f vs → (∀ v ∈ vs, Inside n v) →
+        (∀ b, Got n (Ast.is .RecordBody) b → ∀ a ∈ vs, Dj a b) →
+        PC (do
+          scopesPush (ScopeKind.record defId)
+          match Ast.defRecordBody n with
+            | some body => do
+              indexRecordBody r body
+              scopesPop
+            | x => pure () : IxM Unit) c1 (fun _ c' => Vis c c' f [n]) :=
+      fun defId _ _ h1 hin hd => hrest defId h1 hin hd
+    refine hname true _ h0 hk _ ?_
+    intro named nv hx hgot c1 h1
+    exact halloc true _ h1 hk named nv hx hgot
   | some defsetId =>
     dsimp only
-    refine halloc _ _ h0 ?_
-    intro defId c1 vs h1 hin hd
-    refine PC.silent_bind (defsetMut_silent _ _) h1 ?_
-    intro _ c2 h2
-    exact hrest defId h2 hin hd
+    have hk : ∀ (defId : Nat) {c1 : IndexCtx} {vs : List PTree}, At ws0 c c1 f vs → (∀ v ∈ vs, Inside n v) →
+        (∀ b, Got n (Ast.is .RecordBody) b → ∀ a ∈ vs, Dj a b) →
+        PC (do
+          let __r ← defsetMut defsetId fun ds =>
+            { name := ds.name, typ := ds.typ, defList := ds.defList.push defId, defineLoc := ds.defineLoc }
+          scopesPush (ScopeKind.record defId)
+          match Ast.defRecordBody n with
+            | some body => do
+              indexRecordBody r body
+              scopesPop
+            | x => pure () : IxM Unit) c1 (fun _ c' => Vis c c' f [n]) := by
+      intro defId c1 vs h1 hin hd
+      refine PC.silent_bind (defsetMut_silent _ _) h1 ?_
+      intro _ c2 h2
+      exact hrest defId h2 hin hd
+    refine hname false _ h0 hk _ ?_
+    intro named nv hx hgot c1 h1
+    exact halloc false _ h1 hk named nv hx hgot
 
 theorem indexDefm_vis : VSpec ws0 (indexDefm r n) n := by
   intro c f hc
@@ -1025,26 +1102,55 @@ theorem indexDefm_vis : VSpec ws0 (indexDefm r n) n := by
   refine PC.silent_bind sameFileDefset_silent h ?_
   intro dsid c0 h
   dsimp only
+  have hjp : ∀ (named : Option (String × FileRange)) (nv : PTree),
+      (∀ name loc, named = some (name, loc) → IdLoc f nv loc) →
+      (∀ name loc, named = some (name, loc) → Got n (Ast.is .Value) nv) →
+      PC (match named with
+        | some (name, defineLoc) => do
+          let defmId ← addDefm { name := name, defineLoc := defineLoc } dsid.isNone
+          scopesPush (ScopeKind.defm defmId)
+          match Ast.defmParentClassList n with
+            | some parentClassList => do
+              indexParentClassList r parentClassList
+              scopesPop
+            | x => pure ()
+        | none => do
+          let name ← nextAnonymousDefName
+          let file ← currentFileId
+          let defmId ←
+            addAnonymousDefm { name := name, defineLoc := { file := file, start := n.start, stop := n.stop } }
+          scopesPush (ScopeKind.defm defmId)
+          match Ast.defmParentClassList n with
+            | some parentClassList => do
+              indexParentClassList r parentClassList
+              scopesPop
+            | x => pure () : IxM Unit) c0 (fun _ c' => Vis c c' f [n]) := by
+    intro named nv hx hgot
+    split
+    · rename_i name loc
+      have hloc := hx name loc rfl
+      have gnv := hgot name loc rfl
+      refine PC.reg_bind (addDefm_push _ _ c0) h (gnv.ok hn) hloc (by intro L hL; cases hL; rfl) (by djs hn) ?_
+      intro defId c1 h
+      exact hrest defId h (by ins hn) (fun b gb => by djs hn)
+    · refine PC.silent_bind nextAnonymousDefName_silent h ?_
+      intro name c1 h
+      refine PC.silent_bind currentFileId_silent h ?_
+      intro file c2 h
+      refine PC.bind (addAnonymousDefm_push _ c2) ?_
+      intro defId c3 hp
+      exact hrest defId (h.anon hp) (by ins hn) (fun b gb => by djs hn)
   split
   · rename_i nv hnv
     have gnv := Got.child hnv
     refine PC.bind (indexNameValue_id h.cur nv) ?_
     rintro x c' ⟨hcc, hx⟩
     subst hcc
-    split
-    · rename_i name loc
-      have hloc := hx name loc rfl
-      refine PC.reg_bind (addDefm_push _ _ c0) h (gnv.ok hn) hloc (by intro L hL; cases hL; rfl) (by djs hn) ?_
-      intro defId c1 h
-      exact hrest defId h (by ins hn) (fun b gb => by djs hn)
-    · exact PC.pure (h.exit (by ins hn))
-  · refine PC.silent_bind nextAnonymousDefName_silent h ?_
-    intro name c1 h
-    refine PC.silent_bind currentFileId_silent h ?_
-    intro file c2 h
-    refine PC.bind (addAnonymousDefm_push _ c2) ?_
-    intro defId c3 hp
-    exact hrest defId (h.anon hp) (by ins hn) (fun b gb => by djs hn)
+    exact hjp x nv hx (fun _ _ _ => gnv)
+  · refine PC.bind (R := fun x c' => c0 = c' ∧ x = none) (PC.pure (And.intro rfl rfl)) ?_
+    rintro x c' ⟨hcc, hx⟩
+    subst hcc; subst hx
+    exact hjp none n (by intro _ _ hh; cases hh) (by intro _ _ hh; cases hh)
 
 theorem indexDefset_vis : VSpec ws0 (indexDefset r n) n := by
   intro c f hc
@@ -1405,6 +1511,16 @@ theorem valueList_loop {vl : PTree} (gvl : Got n (Ast.is .ValueList) vl) {σ : T
   intro _ c1 h1
   exact h1.inside (fun v hv => (gvl.inside hn).trans ((Got.mem hv).inside hvl))
 
+omit hn in
+/-- the same loop, as a visit of the `ValueList` node itself -/
+theorem valueList_loop' {vl : PTree} (hvl : NodeOK vl) {σ : Type} {init : σ}
+    {body : PTree → σ → IxM (ForInStep σ)} (hbody : ∀ x, NodeOK x → ∀ b, VSpec ws0 (body x b) x) :
+    VSpec ws0 (forIn (Ast.valueListValues vl) init body) vl := by
+  intro c f hc
+  refine (forIn_vis (Ast.children_sorted hvl _) (fun x hx b => hbody x ((Got.mem hx).ok hvl) b) c f hc).mono ?_
+  intro _ c1 h1
+  exact h1.inside (fun v hv => (Got.mem hv).inside hvl)
+
 theorem indexSimpleValue_vis (hnode : n.isNode = true) : VSpec ws0 (indexSimpleValue r n) n := by
   intro c f hc
   have h := At.start hc
@@ -1430,9 +1546,18 @@ theorem indexSimpleValue_vis (hnode : n.isNode = true) : VSpec ws0 (indexSimpleV
     · rename_i vl hvl
       have gvl := Got.child hvl
       dsimp only
-      refine PC.bind (valueList_loop hr hn gvl (fun x hx b => hvalue x hx _ (by intros; silent)) c f hc) ?_
-      intro _ c1 h1
-      exact PC.pure h1
+      refine PC.visit_bind (valueList_loop' hr (gvl.ok hn) (fun x hx b => hvalue x hx _ (by intros; silent))) h
+        (by djs hn) ?_
+      intro vts c1 h
+      split
+      · rename_i tn htn
+        have gtn := Got.child htn
+        refine PC.visit_bind (hr.typ tn (gtn.ok hn)) h (by djs hn) ?_
+        intro t c2 h
+        split
+        · exact PC.silent_last (by silent) h (by ins hn)
+        · exact PC.pure (h.exit (by ins hn))
+      · exact PC.silent_last (by silent) h (by ins hn)
     · exact PC.pure (h.exit (by ins hn))
   · -- Dag
     dsimp only
